@@ -27,7 +27,12 @@ impl<T: bech32::Checksum> MockApiBech<T> {
 
 impl<T: bech32::Checksum> Api for MockApiBech<T> {
     fn addr_validate(&self, input: &str) -> StdResult<Addr> {
-        self.addr_humanize(&self.addr_canonicalize(input)?)
+        let normalized = self.addr_humanize(&self.addr_canonicalize(input)?)?;
+        // accept only the normalized form of an address (all lowercase, zero padding bits)
+        if input != normalized.as_str() {
+            return Err(StdError::generic_err("Invalid input: address not normalized"));
+        }
+        Ok(normalized)
     }
 
     fn addr_canonicalize(&self, input: &str) -> StdResult<CanonicalAddr> {
